@@ -46,6 +46,10 @@ class C07:
         spacing = rng.choice([0.1, rfloat(rng, 0.05, 0.3, 4)])
         if rng.random() < 0.4:
             spacing = [spacing, rfloat(rng, 0.05, 0.3, 4)]
+        if rng.random() < 0.12:
+            # whole-number pixel pitch given as a Python int: the detector's
+            # coordinates are then integer-typed
+            spacing = rng.choice([1, [1, 1], 2])
         spc = spacing if isinstance(spacing, list) else [spacing, spacing]
         ext = [shape[0] * spc[0], shape[1] * spc[1]]
         tot = shape[0] * shape[1]
